@@ -411,7 +411,7 @@ harness!(d_extend_b_0_33, c_extend_b::<_, 0, 33>, unwind 40);
 harness!(d_extend_b_32_1, c_extend_b::<_, 32, 1>, unwind 40);
 harness!(d_rc_reverse_b_33, c_rc_reverse_b::<_, 33>, unwind 42);
 harness!(d_to_bytes_b_33, c_to_bytes_b::<_, 33>, unwind 42);
-harness!(d_from_dna_only_b, c_from_dna_only_b, unwind 8);
+// d_from_dna_only_b (str::from_utf8 + chars + Vec<DnaString>) needs > 40 GB in CBMC 6.11: not registered.
 harness!(d_packed_add_b, c_packed_add_b, unwind 8);
 harness!(d_dna_eq_ord_hash_b1, c_dna_eq_ord_hash_b1, unwind 36);
 
